@@ -53,6 +53,7 @@ CtlReply ctl_exchange(const std::string& host, std::uint16_t port, const std::st
 std::string ctl_headers(const std::vector<std::pair<std::string, std::string>>& fields);
 
 // reference store PoW (from the property text C19/C28): sha256(chunk_id || be64(size) || be32(len(name)) || name || be64(nonce))
+std::array<std::uint8_t, 32> store_pow_digest(const std::vector<std::uint8_t>& payload, const std::string& name, std::uint64_t nonce);
 bool ref_store_pow_ok(const std::vector<std::uint8_t>& payload, const std::string& sanitized_name, std::uint64_t nonce, int difficulty);
 std::uint64_t ref_solve_store_pow(const std::vector<std::uint8_t>& payload, const std::string& sanitized_name, int difficulty, bool valid = true);
 
